@@ -390,6 +390,7 @@ pub fn gen_script(t: &mut Tape, p: &Profile) -> Script {
         content_type_mask: 0,
         mono_back: None,
         switch_wakers: false,
+        embedder_bumps_versions_at_install: false,
     };
     if p.junk_url.0 > 0 && t.chance(p.junk_url.0, p.junk_url.1) {
         s.service_url = gen_junk_url(t);
